@@ -2,6 +2,8 @@ mod c01;
 mod c07;
 mod c12;
 mod c14;
+mod c15;
+mod c15w;
 mod c17;
 mod common;
 mod corpus;
@@ -146,6 +148,11 @@ fn run_check(id: &str, tier: Tier) -> i32 {
             r.parts.push(c01::part_c14_regs(tier));
             finish(r)
         }
+        "C15" => {
+            let mut r = Report::new("C15", tier, "exploration");
+            r.parts.push(c15::part_sweep(tier));
+            finish(r)
+        }
         "C17" => {
             let mut r = Report::new("C17", tier, "model_checking");
             r.parts.push(c17::part_index(tier));
@@ -176,6 +183,7 @@ fn replay(path: &str) -> i32 {
         "sched" => sched::replay(rp),
         "e2e" => e2x::replay(rp),
         "dap" => dapx::replay(rp),
+        "c15" => c15::replay(rp),
         e => {
             eprintln!("no replay handler for engine {e:?}");
             2
